@@ -15,6 +15,8 @@
 package searcher
 
 import (
+	"bytes"
+
 	"github.com/blugelabs/bluge/search"
 )
 
@@ -28,6 +30,12 @@ func NewTermRangeSearcher(indexReader search.Reader,
 
 	if max != nil && inclusiveMax {
 		max = append(max, 0)
+	}
+
+	// an inverted or empty range selects nothing; do not hand it to the
+	// dictionary iterator, which yields the end key itself when start >= end
+	if max != nil && bytes.Compare(min, max) >= 0 {
+		return NewMatchNoneSearcher(indexReader, options)
 	}
 
 	fieldDict, err := indexReader.DictionaryIterator(field, nil, min, max)
